@@ -436,6 +436,8 @@ def eigh(a):
 
 @eigh.register(FermionicArray)
 def eigh_fermionic(a):
+    # lazy phases must be multiplied in before decomposing the raw blocks
+    a = a.phase_sync()
     eigenvalues, eigenvectors = eigh.dispatch(AbelianArray)(a)
 
     if not a.indices[1].dual:
